@@ -233,6 +233,16 @@ CATALOGUE = [
          old="        line.append(sep)\n        return CHText(line)\n",
          new="        line.append(sep)\n        return line\n",
          note="the original defect (fixed in /repo): title and record lines of a table are bare lists of chunks"),
+    dict(id="m10_synced_palette_stale", prop="C10", file="ak/color.py",
+         old="""        self.register_in_colors_conf(colors_conf)
+        for accessor_name, synt_id in self._LOCAL_SYNTAX.items():
+            setattr(self, accessor_name, colors_conf.get_color(synt_id))
+""",
+         new="""        if not colors_conf.color_conf_component_is_registered(type(self)):
+            self.register_in_colors_conf(colors_conf)
+            for accessor_name, synt_id in self._LOCAL_SYNTAX.items():
+                setattr(self, accessor_name, colors_conf.get_color(synt_id))
+""", note="same mutation as m14_sync_skips_accessors seen through renderings with a synced palette object"),
     dict(id="m10_nocolor_returns_cached_colored", prop="C10", suite_catches=True, file="ak/color.py",
          old="            return cls._PALETTE_NO_COLOR\n",
          new="            return cls._PALETTE_NO_COLOR or colors_conf.get_cached_obj(cls)\n",
